@@ -1,113 +1,148 @@
 package main
 
-// C05 facts: for the create / update / delete processors, the order in which
-// callbacks/callbacks.go RegisterDefaultCallbacks registers the callbacks and which of them are
-// under Match(enableTransaction) — extracted from the CURRENT source with go/parser.
-// FactsOK_C05 requires: gorm:begin_transaction first, gorm:commit_or_rollback_transaction last,
-// both (and only they) under the same Match. A Register statement of another shape on one of
-// these processors is listed in c05_unknown, which must be empty.
+// C05 facts, read from the RUNNING gorm (the facts binary is linked against the tree under test),
+// not from source text: for the create / update / delete processors
+//   * the registered callbacks, in registration order, with whether each is conditional on a
+//     Match function and on WHICH one (same function value = same tag) — by reflection over the
+//     processor's callback list, located by its SHAPE (a slice of pointers to structs holding
+//     string fields, a func(*gorm.DB) handler and a func(*gorm.DB) bool condition), not by field names;
+//   * the order in which these callbacks are actually EXECUTED — by registering, through the public
+//     API, one probe callback Before(name) per callback and running a DryRun operation.
+// FactsOK_C05 requires: executed order = registered order; gorm:begin_transaction first,
+// gorm:commit_or_rollback_transaction last, both (and only they) under the same Match. A callback
+// entry the reflection cannot read (no unique non-empty name) is listed in c05_unknown, which must be empty.
+// Rewrites of callbacks/callbacks.go that keep the calls (tables, loops, helpers, renamed fields)
+// do not change these facts.
 
 import (
 	"fmt"
-	"go/ast"
-	"go/parser"
-	"go/token"
 	"io"
-	"path/filepath"
-	"strconv"
+	"reflect"
 	"strings"
+
+	"gorm.io/gorm"
+	"gorm.io/gorm/logger"
+	"gorm.io/gorm/utils/tests"
 )
 
 type c05Reg struct {
 	Name  string `json:"name"`
-	Match string `json:"match"` // "" or the argument of Match(...)
+	Match string `json:"match"` // "" or a tag identifying the Match function
+}
+
+type c05Probe struct {
+	ID   uint `gorm:"primaryKey"`
+	Name string
 }
 
 func c05Str(s string) string { return "\"" + strings.ReplaceAll(s, "\"", "\"\"") + "\"%string" }
 
+// c05Registered reads the callback list of a processor by shape.
+func c05Registered(proc interface{}, matchTags map[uintptr]string) (regs []c05Reg, unknown []string) {
+	dbType := reflect.TypeOf(&gorm.DB{})
+	handlerT := reflect.FuncOf([]reflect.Type{dbType}, nil, false)
+	condT := reflect.FuncOf([]reflect.Type{dbType}, []reflect.Type{reflect.TypeOf(true)}, false)
+	pv := reflect.ValueOf(proc).Elem()
+	found := false
+	for i := 0; i < pv.NumField(); i++ {
+		f := pv.Field(i)
+		if f.Kind() != reflect.Slice || f.Type().Elem().Kind() != reflect.Ptr || f.Type().Elem().Elem().Kind() != reflect.Struct {
+			continue
+		}
+		et := f.Type().Elem().Elem()
+		hasHandler, hasCond := false, false
+		for j := 0; j < et.NumField(); j++ {
+			hasHandler = hasHandler || et.Field(j).Type == handlerT
+			hasCond = hasCond || et.Field(j).Type == condT
+		}
+		if !hasHandler || !hasCond {
+			continue
+		}
+		found = true
+		for k := 0; k < f.Len(); k++ {
+			cb := f.Index(k).Elem()
+			var names []string
+			match := ""
+			for j := 0; j < cb.NumField(); j++ {
+				fv := cb.Field(j)
+				switch {
+				case fv.Kind() == reflect.String && fv.String() != "":
+					names = append(names, fv.String())
+				case fv.Type() == condT && !fv.IsNil():
+					p := fv.Pointer()
+					if _, ok := matchTags[p]; !ok {
+						matchTags[p] = fmt.Sprintf("match%d", len(matchTags)+1)
+					}
+					match = matchTags[p]
+				}
+			}
+			if len(names) != 1 {
+				unknown = append(unknown, fmt.Sprintf("callback #%d has %d non-empty string fields", k, len(names)))
+				continue
+			}
+			regs = append(regs, c05Reg{Name: names[0], Match: match})
+		}
+	}
+	if !found {
+		unknown = append(unknown, "no callback list found in the processor")
+	}
+	return
+}
+
 func init() {
 	Extractors["C05"] = func(repo string, w io.Writer) (interface{}, error) {
-		fset := token.NewFileSet()
-		f, err := parser.ParseFile(fset, filepath.Join(repo, "callbacks", "callbacks.go"), nil, 0)
+		db, err := gorm.Open(tests.DummyDialector{}, &gorm.Config{Logger: logger.Discard})
 		if err != nil {
 			return nil, err
 		}
-		var body *ast.BlockStmt
-		for _, d := range f.Decls {
-			if fd, ok := d.(*ast.FuncDecl); ok && fd.Name.Name == "RegisterDefaultCallbacks" {
-				body = fd.Body
-			}
-		}
-		if body == nil {
-			return nil, fmt.Errorf("RegisterDefaultCallbacks not found")
-		}
-		procOf := map[string]string{}
 		regs := map[string][]c05Reg{}
+		executed := map[string][]string{}
 		unknown := []string{}
-		for _, st := range body.List {
-			switch s := st.(type) {
-			case *ast.AssignStmt: // xCallback := db.Callback().Create()
-				if len(s.Lhs) == 1 && len(s.Rhs) == 1 {
-					id, ok1 := s.Lhs[0].(*ast.Ident)
-					call, ok2 := s.Rhs[0].(*ast.CallExpr)
-					if ok1 && ok2 {
-						if sel, ok := call.Fun.(*ast.SelectorExpr); ok {
-							if inner, ok := sel.X.(*ast.CallExpr); ok {
-								if isel, ok := inner.Fun.(*ast.SelectorExpr); ok && isel.Sel.Name == "Callback" {
-									procOf[id.Name] = strings.ToLower(sel.Sel.Name)
-								}
-							}
-						}
-					}
+		tags := map[uintptr]string{}
+		var ran []string
+		for _, p := range []string{"create", "update", "delete"} {
+			var r []c05Reg
+			var u []string
+			switch p {
+			case "create":
+				r, u = c05Registered(db.Callback().Create(), tags)
+			case "update":
+				r, u = c05Registered(db.Callback().Update(), tags)
+			case "delete":
+				r, u = c05Registered(db.Callback().Delete(), tags)
+			}
+			regs[p] = r
+			for _, x := range u {
+				unknown = append(unknown, p+": "+x)
+			}
+			// one probe right before every registered callback (public API)
+			for _, reg := range r {
+				name := reg.Name
+				probe := func(*gorm.DB) { ran = append(ran, name) }
+				switch p {
+				case "create":
+					err = db.Callback().Create().Before(name).Register("verif:probe:"+name, probe)
+				case "update":
+					err = db.Callback().Update().Before(name).Register("verif:probe:"+name, probe)
+				case "delete":
+					err = db.Callback().Delete().Before(name).Register("verif:probe:"+name, probe)
 				}
-			case *ast.ExprStmt:
-				call, ok := s.X.(*ast.CallExpr)
-				if !ok {
-					continue
+				if err != nil {
+					return nil, err
 				}
-				sel, ok := call.Fun.(*ast.SelectorExpr)
-				if !ok {
-					continue
-				}
-				// receiver: procVar  |  procVar.Match(arg)
-				var proc, match string
-				known := true
-				switch x := sel.X.(type) {
-				case *ast.Ident:
-					proc = x.Name
-				case *ast.CallExpr:
-					if msel, ok := x.Fun.(*ast.SelectorExpr); ok {
-						if id, ok := msel.X.(*ast.Ident); ok {
-							proc = id.Name
-							if msel.Sel.Name == "Match" && len(x.Args) == 1 {
-								if a, ok := x.Args[0].(*ast.Ident); ok {
-									match = a.Name
-								} else {
-									known = false
-								}
-							} else {
-								known = false
-							}
-						}
-					}
-				}
-				p, isProc := procOf[proc]
-				if !isProc {
-					continue
-				}
-				if sel.Sel.Name != "Register" || !known || len(call.Args) != 2 {
-					unknown = append(unknown, fset.Position(s.Pos()).String())
-					continue
-				}
-				lit, ok := call.Args[0].(*ast.BasicLit)
-				if !ok || lit.Kind != token.STRING {
-					unknown = append(unknown, fset.Position(s.Pos()).String())
-					continue
-				}
-				name, _ := strconv.Unquote(lit.Value)
-				regs[p] = append(regs[p], c05Reg{Name: name, Match: match})
 			}
 		}
+		dry := db.Session(&gorm.Session{DryRun: true})
+		ran = nil
+		dry.Create(&c05Probe{Name: "x"})
+		executed["create"] = ran
+		ran = nil
+		dry.Model(&c05Probe{ID: 1}).Update("name", "y")
+		executed["update"] = ran
+		ran = nil
+		dry.Delete(&c05Probe{ID: 1})
+		executed["delete"] = ran
+
 		fmt.Fprintf(w, "From Coq Require Import List String.\nImport ListNotations.\n")
 		for _, p := range []string{"create", "update", "delete"} {
 			items := make([]string, len(regs[p]))
@@ -115,12 +150,17 @@ func init() {
 				items[i] = "(" + c05Str(r.Name) + ", " + c05Str(r.Match) + ")"
 			}
 			fmt.Fprintf(w, "Definition c05_%s_order : list (string * string) := [%s].\n", p, strings.Join(items, "; "))
+			ex := make([]string, len(executed[p]))
+			for i, n := range executed[p] {
+				ex[i] = c05Str(n)
+			}
+			fmt.Fprintf(w, "Definition c05_%s_executed : list string := [%s].\n", p, strings.Join(ex, "; "))
 		}
 		us := make([]string, len(unknown))
 		for i, u := range unknown {
 			us[i] = c05Str(u)
 		}
 		fmt.Fprintf(w, "Definition c05_unknown : list string := [%s].\n", strings.Join(us, "; "))
-		return map[string]interface{}{"create": regs["create"], "update": regs["update"], "delete": regs["delete"], "unknown": unknown}, nil
+		return map[string]interface{}{"registered": regs, "executed": executed, "unknown": unknown, "source": "running gorm (reflection + probe callbacks)"}, nil
 	}
 }
